@@ -41,7 +41,7 @@ Shapes ==
   Bases
   \cup { Ref("Color"), Ref("Inner"), Ref("MyInt"), Ref("MyStr"), Ref("MyColor"), Ref("MyInner"), Ref("MyList"), Ref("MyLong2"), Ref("MyMap"), Ref("MySet") }
   \cup { ListOf(e) : e \in { B("i32"), B("string"), B("binary"), B("bool"), B("double"), Ref("Inner"), Ref("Color"), ListOf(B("i32")), Ref("MyStr"), MapOf(B("string"), B("i32")) } }
-  \cup { SetOf(e) : e \in { B("i32"), B("string"), B("binary"), Ref("Color"), Ref("Inner"), ListOf(B("i32")), B("i64"), Ref("MyInt") } }
+  \cup { SetOf(e) : e \in { B("i32"), B("string"), B("binary"), Ref("Color"), Ref("Inner"), ListOf(B("i32")), B("i64"), Ref("MyInt"), B("double") } }
   \cup { MapOf(kt, vt) : kt \in { B("string"), B("i32"), Ref("Color") }, vt \in { B("i32"), Ref("Inner"), ListOf(B("string")) } }
   \cup { MapOf(Ref("Inner"), B("i32")), MapOf(ListOf(B("i32")), B("string")), MapOf(B("binary"), B("bool")), MapOf(B("double"), B("i8")),
          MapOf(B("i64"), MapOf(B("string"), B("i8"))), MapOf(SetOf(B("i32")), ListOf(B("double"))), MapOf(Ref("MyStr"), Ref("MyInner")) }
@@ -62,6 +62,9 @@ Vals(S, t) ==
     [] r.k = "ref" /\ Def(S, r.n).kind = "enum" -> { I(1), I(5), I(77) }
     [] r.k = "ref" /\ r.n = "Inner" -> { St(<< F("x", I(1)) >>), St(<< F("x", I(-5)), F("s", Str(<<97>>)) >>) }
     [] r.k = "list" -> LET p == Pick2(Vals(S, r.e)) IN { LV(<<>>), LV(<<p[1]>>), LV(p), LV(<<p[1], p[1]>>) }
+    [] r.k = "set" /\ Root(S, r.e).k = "double" ->      \* sets that differ in the sign of a zero only are equal
+                       LET pz == Dbl(<<0,0,0,0>>) nz == Dbl(<<32768,0,0,0>>) one == Dbl(<<16368,0,0,0>>) IN
+                       { SV(<<>>), SV(<<pz>>), SV(<<nz>>), SV(<<pz, one>>), SV(<<nz, one>>) }
     [] r.k = "set"  -> LET p == Pick2(Vals(S, r.e)) IN { SV(<<>>), SV(<<p[1]>>), SV(p) }
     [] r.k = "map"  -> LET pk == Pick2(Vals(S, r.kt)) pv == Pick2(Vals(S, r.vt)) IN
                        { MV(<<>>), MV(<< [k |-> pk[1], v |-> pv[1]] >>),
